@@ -130,6 +130,8 @@ struct RetirementQueue {
     pending: Mutex<Vec<WriteEntry>>,
     flush: Mutex<()>,
     released_sectors: AtomicU64,
+    /// Workers that have completed their shutdown drain.
+    final_passes_done: AtomicUsize,
 }
 
 impl RetirementQueue {
@@ -138,6 +140,7 @@ impl RetirementQueue {
             pending: Mutex::new(Vec::new()),
             flush: Mutex::new(()),
             released_sectors: AtomicU64::new(0),
+            final_passes_done: AtomicUsize::new(0),
         }
     }
 }
@@ -578,6 +581,15 @@ fn write_buffer_worker(ctx: WorkerContext, flush_rx: Receiver<FlushRequest>) {
         let mut retry_delay_us = 50;
         let mut retries = 0;
         loop {
+            // Out of space is final only if every other worker had finished its own drain
+            // before this pass began: a delete still queued in another worker's shard is
+            // retired by that worker, and its blocks are what a pending write here may need.
+            let others_draining = ctx
+                .retirement_queue
+                .final_passes_done
+                .load(Ordering::Acquire)
+                + 1
+                < ctx.worker_count;
             match flush_worker_shards(&ctx, format, true) {
                 Ok(false) => break,
                 Ok(true) => {
@@ -594,7 +606,9 @@ fn write_buffer_worker(ctx: WorkerContext, flush_rx: Receiver<FlushRequest>) {
                     break;
                 }
                 Err(error) => {
-                    if !final_flush_error_is_retryable(&error) {
+                    let space_may_be_freed =
+                        others_draining && matches!(error, FeoxError::OutOfSpace);
+                    if !space_may_be_freed && !final_flush_error_is_retryable(&error) {
                         eprintln!("feox: final write-buffer flush failed: {error}");
                         break;
                     }
@@ -610,6 +624,9 @@ fn write_buffer_worker(ctx: WorkerContext, flush_rx: Receiver<FlushRequest>) {
                 }
             }
         }
+        ctx.retirement_queue
+            .final_passes_done
+            .fetch_add(1, Ordering::AcqRel);
     }
 }
 
